@@ -110,7 +110,8 @@ def lemma(name, **kw):
 
 def record(name_, **fields):
     name = name_
-    RECORDS[name] = dict(fields)
+    # several contract files may each declare the fields they need of one class: declarations are merged
+    RECORDS.setdefault(name, {}).update(fields)
     return name
 
 
